@@ -936,3 +936,85 @@ pub fn assumptions(_prop: &str) -> Vec<String> {
         "user code is well behaved (total Ord, consistent Hash/Eq) except where a fault is injected deliberately".into(),
     ]
 }
+
+/// Reduced-bound enumerations that are cheap enough to run under Miri (thorough tier of
+/// C04/C09/C10/C13): the enumeration is the same code, Miri only monitors each execution for
+/// out-of-bounds / use-after-free / uninitialised reads / invalid values.
+pub fn run_miri(prop: &str) -> Outcome {
+    type H = FnvBuild;
+    let mut out = Outcome::new();
+    let prios = [0, 1];
+    match prop {
+        "C04" => {
+            let mut cfg = base_cfg("C04", 2, &prios[..1], A_PUSH | A_CHANGE | A_REMOVE | A_POP | A_POP_IF | A_RETAIN | A_ITER_MUT | A_ITER_MUT_BACK | A_ITER_MUT_FORGET | A_CLEAR_DRAIN | A_DRAIN_FORGET | A_CONVERT | A_APPEND | A_PEEK_MUT);
+            cfg.threads = 1;
+            cfg.deep = false;
+            cfg.root_vec_len = 1;
+            run_closed::<H>(&mut out, "miri: E1 closed (2 items x 2 priorities), union alphabet", &cfg, &no_probes);
+        }
+        "C09" | "C13" => {
+            let p: &'static str = if prop == "C09" { "C09" } else { "C13" };
+            let mut cfg = base_cfg(p, 2, &prios, A_REACH);
+            cfg.threads = 1;
+            cfg.deep = false;
+            let uni = cfg.universe();
+            let pm = if prop == "C09" { "C09m" } else { "C13m" };
+            let mk = |ex: &mut Explorer<H>| {
+                for pr in crate::probes::all_probes::<H>(pm, &uni) {
+                    ex.probes.push(pr);
+                }
+            };
+            run_closed::<H>(&mut out, "miri: E1 closed (2 items x 2 priorities) + iterator programs from every state", &cfg, &mk);
+            // one deeper shape
+            let mut c = seeds_cfg(p, 4, &REL_BIN, A_REACH);
+            c.threads = 1;
+            c.deep = false;
+            let uni = c.universe();
+            let mk = |ex: &mut Explorer<H>| {
+                for pr in crate::probes::all_probes::<H>(pm, &uni[..3]) {
+                    ex.probes.push(pr);
+                }
+            };
+            run_seeds::<H>(&mut out, "miri: 2 seeds of 4 elements + iterator programs", &c, f_bin(4).into_iter().skip(5).step_by(7).take(2).collect(), 0, &mk);
+        }
+        "C10" => {
+            use crate::e3::*;
+            let mut cfg = base_cfg("C10", 2, &prios[..1], A_PUSH | A_POP | A_REMOVE);
+            cfg.threads = 1;
+            cfg.kinds = vec![false, true];
+            cfg.root_vec_len = 1;
+            let mut ex = Explorer::<H>::new(&cfg);
+            ex.collect = Some(Default::default());
+            ex.run_closed();
+            let nodes = ex.collect.take().unwrap().into_inner().unwrap();
+            let t0 = Instant::now();
+            out.absorb("miri: base states E1 (2 items x 2 priorities)", &ex, t0);
+            let mut fault_cfg = cfg.clone();
+            fault_cfg.alphabet = A_PUSH | A_CHANGE | A_REMOVE | A_POP | A_POP_IF | A_RETAIN | A_ITER_MUT | A_ITER_MUT_FORGET | A_DRAIN_FORGET | A_CLEAR_DRAIN | A_APPEND | A_CLONE | A_CONVERT;
+            let mut cont = base_cfg("C10", 2, &prios[..1], A_PUSH | A_POP | A_REMOVE);
+            cont.threads = 1;
+            let e3cfg = E3Cfg { prop: "C10", fault_cfg, cont_cfg: cont, max_faults: 1, depth: 1, threads: 1, max_states: 100_000, max_wall_s: 3000.0 };
+            let e3 = E3::<H>::new(&e3cfg);
+            let bases: Vec<FNode<H>> = nodes.iter().map(|n| FNode { q: n.q.clone(), faults: 0, depth: 0, base: std::sync::Arc::new((n.root.0, n.root.1.clone(), n.ops())), trail: None }).collect();
+            e3.run(bases);
+            let st = &e3.stats;
+            let trans = st.transitions.load(AO::Relaxed);
+            out.states += st.post_fault_states.load(AO::Relaxed);
+            out.transitions += trans;
+            out.validated += trans;
+            out.layers.push(json!({"layer": "miri: E3 fault enumeration from every base state, continuation depth 1", "crash_points_enumerated": st.fault_points.load(AO::Relaxed), "unique_post_fault_states": st.post_fault_states.load(AO::Relaxed), "transitions_incl_continuations": trans}));
+            let mut v = e3.violations.lock().unwrap();
+            out.violations.extend(v.drain(..));
+        }
+        _ => {}
+    }
+    out
+}
+
+pub fn run_property_miri(prop: &str) -> Outcome {
+    run_miri(prop)
+}
+
+pub fn has_miri_stage(prop: &str) -> bool {
+    matches!(prop, "C04" | "C09" | "C10" | "C13")
+}
